@@ -230,6 +230,9 @@ func (e event) line() string { return fmt.Sprintf("%d %s %s", e.Ts, vh.HxS(e.Msg
 
 const absDate = "2019-01-02 12:34:55"
 
+// f902Bound: model.MinTimestamp as it is in the tree the finding F-C05-902 was established on (pinned, not read from the code)
+const f902Bound = int64(-6795364578871345152)
+
 // realistic nanosecond magnitudes: above 2^53, odd, not multiples of 256 (float64(bigT) = bigT-21, float64(bigT2) = bigT2-1)
 const (
 	bigT  int64 = 1552307683123456789
@@ -1307,10 +1310,16 @@ func runFiter(c fiterCase, sec *vh.Section) (lines, impls []string, ok bool) {
 	for _, e := range c.Events {
 		sb.WriteString(" " + e.line())
 	}
+	// MODEL: without a RANGE the model filters with the code's default range as regenerated (Generated.C05.fiterDefaultRange*);
+	// SPEC (spec.filter below): without a RANGE every int64 timestamp is in range
+	fitArgs := sb.String()
+	if c.Range == nil {
+		fitArgs = "dflt dflt" + strings.TrimPrefix(fitArgs, fmt.Sprintf("%d %d", mn, mx))
+	}
 	if c.Jump {
-		lines = append(lines, "fit.newjump "+sb.String())
+		lines = append(lines, "fit.newjump "+fitArgs)
 	} else {
-		lines = append(lines, "fit.new "+sb.String())
+		lines = append(lines, "fit.new "+fitArgs)
 	}
 	impls = append(impls, "ok")
 	ctx := context.Background()
@@ -1413,11 +1422,28 @@ func checkFiter(c fiterCase, lines, impls, outs []string) {
 		}
 		want := specScript(c, pass)
 		got := impls[len(impls)-1-len(c.Ops) : len(impls)-1]
+		// open finding F-C05-902: without a RANGE the filter's default range starts at -6795364578871345152, not at the int64
+		// minimum. The failure belongs to it iff there is no RANGE, some event is stamped below that bound, and the whole script
+		// behaves exactly as the reference does once those events are taken out of the passing set.
+		finding := ""
+		if c.Range == nil {
+			pass2, early := map[int]bool{}, false
+			for k, v := range pass {
+				if c.Events[k].Ts < f902Bound {
+					early = true
+				} else {
+					pass2[k] = v
+				}
+			}
+			if early && fmt.Sprint(specScript(c, pass2)) == fmt.Sprint(got) {
+				finding = "F-C05-902"
+			}
+		}
 		for i := range want {
 			if i < len(got) && got[i] != want[i] {
 				mdl := outs[n-len(c.Ops)+i]
 				res.SpecFail(vh.SpecFailure{Section: "fiter", Kind: "filter-not-exact", Input: c, Impl: fmt.Sprintf("op %d (%s): %s", i, c.Ops[i], got[i]),
-					Spec: want[i], Model: mdl, ImplEqModel: mdl == got[i],
+					Spec: want[i], Model: mdl, ImplEqModel: mdl == got[i], Finding: map[bool]string{true: finding, false: ""}[mdl == got[i]],
 					What: "the filtering iterator does not deliver exactly the passing events of the wrapped iterator from its current position (altered, reordered, duplicated, skipped or stale event)"})
 				break
 			}
@@ -1434,6 +1460,19 @@ func checkFiter(c fiterCase, lines, impls, outs []string) {
 		}
 		res.Mismatch(vh.Mismatch{Section: "fiter", Function: "cursor.fiterator: " + lines[i], Input: c, Impl: want, Model: outs[i]})
 		return
+	}
+}
+
+func fiterEarlyCases() []fiterCase {
+	mk := func(ts int64, msg string) event {
+		e := mkEvent(ts, msg, "a", "x")
+		return e
+	}
+	evs := []event{mk(minTs+1, "m0"), mk(f902Bound-1, "m1"), mk(f902Bound, "m2"), mk(f902Bound+1, "m3"), mk(-5, "m4"), mk(7, "m5")}
+	return []fiterCase{
+		{Text: `msg contains "m"`, Events: evs, Ops: []string{"drain"}},
+		{Text: `fields:a = "x" AND NOT msg contains "4"`, Events: evs, Ops: []string{"get", "next", "get", "back1", "get", "back0", "drain"}},
+		{Text: "", Events: evs, Ops: []string{"drain"}},
 	}
 }
 
@@ -1491,6 +1530,8 @@ func sectionFiter(rng *vh.Rng) {
 		}
 		cases = append(cases, c)
 	}
+	// fixed scripts for the open finding F-C05-902: events stamped below / at / above the default range's lower bound, no RANGE
+	cases = append(cases, fiterEarlyCases()...)
 	var all []string
 	type span struct{ lo, hi int }
 	spans := make([]span, len(cases))
@@ -1546,6 +1587,8 @@ type e2eCase struct {
 	// ReuseAfter: the held-ReqId scenario (reuse.go): `WHERE <ReuseAfter>` with WaitTimeout 1 first, then the same ReqId and the
 	// returned position with `WHERE <Text>` (equal length)
 	ReuseAfter string `json:"reuse_after,omitempty"`
+	// Early: the partition with timestamps around model.MinTimestamp (reuse.go: e2eEarly)
+	Early bool `json:"early,omitempty"`
 	Text  string    `json:"text"`
 	Want  string    `json:"want_ast,omitempty"`
 	Range *[2]int64 `json:"range,omitempty"`
@@ -1860,6 +1903,7 @@ func sectionE2E(rng *vh.Rng, extra []e2eCase) {
 	e2eRetry(srv, sec, cases, rng)
 	e2eCallers(srv, sec, cases, kinds)
 	e2eReuse(srv, sec, cases)
+	e2eEarly(srv, sec)
 	res.Done(sec)
 }
 
@@ -2157,6 +2201,19 @@ func sectionCorpus() (e2eExtra []e2eCase) {
 			continue
 		}
 		switch r.Section {
+		case "fiter":
+			var c fiterCase
+			if json.Unmarshal(r.Input, &c) == nil && len(c.Ops) > 0 {
+				for i := range c.Events {
+					c.Events[i].fill()
+				}
+				if l, im, ok := runFiter(c, sec); ok {
+					if outs, err := vh.Batch(args.Driver, append([]string{"reset"}, l...)); err == nil {
+						checkFiter(c, l, im, outs[1:])
+						res.Eval(sec, "fiter|"+f)
+					}
+				}
+			}
 		case "tsorder":
 			if c, ok := tsOrderFromRecorded(r.Input); ok {
 				if c.Extra != "" {
